@@ -113,6 +113,7 @@ def step (d : DSt) (line : String) : DSt × String :=
       match which with
       | "overlap" => (overlapViolations g t).map (fun (w, c) => s!"{(g.worker w).id}/class{c}")
       | "count" => (countViolations g t).map (fun (w, c, k) => s!"{(g.worker w).id}/class{c}/{k}")
+      | "attempt" => (attemptViolations g t).map (fun (w, c, k) => s!"{(g.worker w).id}/class{c}/{k}")
       | "present" => (presentNotRunViolations g t).map (fun (w, c) => s!"{(g.worker w).id}/class{c}")
       | "owner" => (ownerViolations g t).map (fun (w, c, what) => s!"{(g.worker w).id}/class{c}/{what}")
       | "states" => (statesViolations g d.pool t).map (fun (w, c, vm, st) => s!"{(g.worker w).id}/class{c}/{vm}:{st}")
